@@ -232,7 +232,7 @@ def make_scaling_harness(n: int, admittance: bool):
     return harness
 
 
-def make_smooth_harness(smoothing: str, num_points: int, order: int, n: int, again: bool = False):
+def make_smooth_harness(smoothing: str, num_points: int, order: int, n: int, again: bool = False, only_completes: bool = False):
     """the pure-Python smoothing filters leave linear data a + b*i unchanged (up to 1e-9 relative, which absorbs the rounding of
     the concrete kernel coefficients); the filters are linear, so the box |a|,|b| <= 1 covers every line by homogeneity"""
     def harness(eng):
@@ -258,6 +258,9 @@ def make_smooth_harness(smoothing: str, num_points: int, order: int, n: int, aga
         tol = 1e-9 * (1 + n)
         out = list(out.flat) if hasattr(out, "flat") else list(out)
         eng.check(len(out) == n, "smoothing:one value per point")
+        if only_completes:
+            eng.reached("smoothing")
+            return
         for i in range(min(n, len(out))):
             d = out[i] - data[i]
             eng.check((d <= tol) if not is_symbolic(d) else bool((d <= tol) & (d >= -tol)), "smoothing:linear (and constant) data are left unchanged",
